@@ -72,6 +72,9 @@ def generate(seed, stratum, tier):
                                ops=('post_fifo', 'post_lifo', 'rtc', 'circuit', 'ev'), weights=(5, 2, 3, 2, 1))
     sc['configs'] = [0] + sorted(rng.sample(range(1, len(QUEUED_CONFIGS)), 5 if tier == 'quick' else 9))
     sc['config_set'] = 'queued'
+    if rng.random() < 0.3:
+      # small instrumentation ring buffers (class attributes a user may set): what the logs keep changes, what the chart does must not
+      sc['rings'] = {'rtc': rng.choice([3, 4, 6, 10]), 'spy': rng.choice([5, 20, 500]), 'trc': rng.choice([2, 5, 500])}
     return sc
   sc = cc.gen_chart_scenario(rng, combos=[('plain', 'closure')], nops=(4, 25), ops=('ev', 'is_in', 'child'), weights=(8, 1, 1))
   k = 6 if tier == 'quick' else 10
